@@ -23,6 +23,7 @@ RULE = ("random sequences of all classes (quick N <= 40, thorough N <= 150) x 8 
 RULE += ("; added after the mutation rounds: size spelled as string / float; steps >= N; numpy-integer arguments; 600-900-residue low-complexity chains with windows 255..640; one user dictionary edited in place between calls; the first cases of every shard are judged again at its end")
 RULE += ("; round 5: user dictionaries with extra non-amino-acid keys mapping to arbitrary values")
 RULE += ("; round 7: sequences of 1001 and 1300 residues")
+RULE += ("; round 9: predefined and non-predefined sizes next to a user alphabet; one-to-one user alphabets; windows between N and N+1")
 EXHAUSTIVE = {"quick": False, "thorough": False}
 ASSUMPTIONS = [
     "Wootton-Federhen entropy base = number of letters of the reduced alphabet (predefined: its size; user: number "
